@@ -24,7 +24,16 @@
      announcing a body that has not arrived) are not "a message received from
      the peer": they are neither a reception time nor a reset point.  A message
      is received at the time of the read that delivers its last byte (see the
-     byte-level section at the end of this file). *)
+     byte-level section at the end of this file);
+   * "received from the peer": what the LOCAL side transmits (Sent t: a request, a
+     notification, a confirmable message waiting for its acknowledgement) is not a
+     message received from the peer: neither a reception time nor a reset point.
+     A peer that is sent to but says nothing is as silent as any other;
+   * several connections: the text speaks about "a connection" and "the peer": the
+     messages, ticks, pings and failures that count for connection i are its own.
+     What other connections of the same server / made from the same option receive,
+     or how many pings THEY left unanswered, is nothing to connection i (see the
+     section "several connections" below). *)
 From Coq Require Import ZArith NArith List Bool.
 From GoCoap Require Import Monitor.Model.
 Import ListNotations.
@@ -93,6 +102,7 @@ Definition is_reset (older : list item) (it : item) : bool :=
   | (PongCb g, _) => g =? cur_gen older
   | (Tick _ _, _) => false
   | (Frag _, _) => false
+  | (Sent _, _) => false
   end.
 
 (* consecutive failures since the last reset point *)
@@ -131,6 +141,27 @@ Fixpoint judge_all (P : params) (past rest : list item) : N :=
   end.
 
 Definition spec_ok (P : params) (trace : list item) : bool := (judge_all P [] trace =? 0)%N.
+
+(* ---- several connections ----------------------------------------------------------
+   An observed system trace tags every item with the connection it belongs to.  The
+   property has to hold for every connection on ITS sub-trace. *)
+Definition mitem := (mev * list obs)%type.
+
+Fixpoint proj (i : nat) (tr : list mitem) : list item :=
+  match tr with
+  | [] => []
+  | ((j, e), o) :: r => if Nat.eqb j i then (e, o) :: proj i r else proj i r
+  end.
+
+(* first connection (lowest index) whose sub-trace the judge rejects; P i = parameters of connection i *)
+Fixpoint mjudge_from (P : nat -> params) (i n : nat) (tr : list mitem) : N :=
+  match n with
+  | O => 0%N
+  | S m => let c := judge_all (P i) [] (proj i tr) in
+           if (c =? 0)%N then mjudge_from P (S i) m tr else c
+  end.
+
+Definition mjudge (P : nat -> params) (n : nat) (tr : list mitem) : N := mjudge_from P 0 n tr.
 
 (* ---- stream connections, byte level ---------------------------------------------
    The peer's stream is a sequence of messages whose encoded sizes are [sizes]
